@@ -79,3 +79,22 @@ Proof.
   { destruct (new_spec K) as [_ E]. rewrite E in Hn. injection Hn as <-. reflexivity. }
   rewrite <- Hh, Hr. reflexivity.
 Qed.
+
+(* ---- EncrypterHalf::encrypt / DecrypterHalf::decrypt: the methods themselves ---- *)
+Definition thalf_full (r : nres (half * list N)) : option ((list N * N * N) * unit * list N) :=
+  match r with Ok (h, out) => Some ((h_key h, c_idx (h_st h), c_prev (h_st h)), tt, out) | _ => None end.
+
+Lemma tbc_half_encrypt_translated : forall h data,
+  tr_tbc_half_encrypt (h_key h) (c_idx (h_st h)) (c_prev (h_st h)) data = thalf_full (encrypt h data).
+Proof.
+  intros h data. unfold tr_tbc_half_encrypt, encrypt.
+  change (c_idx (h_st h), c_prev (h_st h)) with (cst_pair (h_st h)). rewrite tbc_encrypt_translated.
+  destruct (enc_loop _ _ _ _) as [[s out]|]; reflexivity.
+Qed.
+Lemma tbc_half_decrypt_translated : forall h data,
+  tr_tbc_half_decrypt (h_key h) (c_idx (h_st h)) (c_prev (h_st h)) data = thalf_full (decrypt h data).
+Proof.
+  intros h data. unfold tr_tbc_half_decrypt, decrypt.
+  change (c_idx (h_st h), c_prev (h_st h)) with (cst_pair (h_st h)). rewrite tbc_decrypt_translated.
+  destruct (dec_loop _ _ _ _) as [[s out]|]; reflexivity.
+Qed.
